@@ -130,3 +130,37 @@ def utf8_axioms():
                   patterns=[ustate(b, i)]),
         z3.ForAll([b, i], z3.And(0 <= ustate(b, i), ustate(b, i) <= U_TRAP), patterns=[ustate(b, i)]),
     ]
+
+
+# ---------------------------------------------------------------- RFC 6455 5.2 encoder spec
+keyfn = z3.Function("key", Int, Sq)  # ghost: wire bytes of the value returned by the i-th draw from a key source
+srcfn = z3.Function("keysrc", Int, Int)  # ghost: identity of the key source used for the i-th draw
+
+
+def forall_i(n, body, pats=None, name="i"):
+    i = z3.Int(name + "!q")
+    b = body(i)
+    return z3.ForAll([i], z3.Implies(z3.And(0 <= i, i < n), b), patterns=pats(i) if pats else None)
+
+
+def be_bytes(n, k):
+    """k-byte big-endian representation of n (0 <= n < 256^k)."""
+    return smt.cat_all([unit((n / (256 ** (k - 1 - j))) % 256) for j in range(k)])
+
+
+def header_len(n):
+    return z3.If(n <= 125, 2, z3.If(n <= 65535, 4, 10))
+
+
+def rfc_header(fin, r1, r2, r3, op, maskbit, n):
+    b0 = fin * 128 + r1 * 64 + r2 * 32 + r3 * 16 + op
+    c7 = z3.If(n <= 125, n, z3.If(n <= 65535, 126, 127))
+    ext = z3.If(n <= 125, smt.empty, z3.If(n <= 65535, be_bytes(n, 2), be_bytes(n, 8)))
+    return cat(cat(unit(b0), unit(maskbit * 128 + c7)), ext)
+
+
+def rfc_encode(fin, r1, r2, r3, op, maskbit, key, payload):
+    """RFC 6455 5.2 encoding, shortest length form (7-bit <= 125, 16-bit <= 65535, 64-bit beyond); written from
+    the RFC.  Masked frames: header, 4 key bytes, payload xor key cyclically."""
+    hdr = rfc_header(fin, r1, r2, r3, op, maskbit, slen(payload))
+    return z3.If(maskbit == 1, cat(hdr, cat(key, smt.xormask(payload, key))), cat(hdr, payload))
